@@ -98,7 +98,14 @@ theorem J_call (sy : Bool) (fx : Fixes) (cap : Nat) (f : Plan) (s : St) (c : Cal
           · exact J_install _ hm hc hu ha hk
         · split
           · exact J_newFiles_install (bombed w d) hm hc hu ha hk
-          · exact J_install _ hm hc hu ha hk
+          · split
+            · refine ⟨segsHaveFiles_cons _ hm, segsHaveFiles_cons _ hc, ?_, segsHaveFiles_cons _ ha, hk⟩
+              apply segsHaveFiles_append (segsHaveFiles_cons _ hu)
+              intro g hg
+              simp only [List.mem_singleton] at hg
+              subst hg
+              simp [newFiles]
+            · exact J_install _ hm hc hu ha hk
   | commit =>
     simp only [call]
     cases hs : s.writer with
